@@ -1,7 +1,7 @@
 (* Proofs/ProgSim.v — C03: whole-program simulation for a fragment of BASIC.
 
    The fragment: scalar assignment, PRINT (expressions, `;`, `,`), GOTO,
-   GOSUB, RETURN, IF c THEN <line>, END — expressions from the fragment of C02 (literals,
+   GOSUB, RETURN, FOR/TO/STEP, NEXT, IF c THEN <line>, END — expressions from the fragment of C02 (literals,
    variables, unary and binary operators, ABS, INT, parentheses).  It is a
    language of counter machines: programs in it loop, branch and need not
    terminate.
@@ -48,7 +48,15 @@ Inductive SRen (F : nat) (rest : list token) : rstmt -> list token -> Prop :=
 | SR_end : SRen F rest SEnd [TEnd]
 | SR_if c c' tc n x : tr c = Some c' -> Renders 0 c' tc -> 1 + pdepth c' < max_nesting -> line_target x = n ->
     xsize c <= F ->
-    SRen F rest (SIf c (ALine n) None) (TIf :: tc ++ [TThen; TNumber x]).
+    SRen F rest (SIf c (ALine n) None) (TIf :: tc ++ [TThen; TNumber x])
+| SR_for v a a' ta b b' tb stp tstep :
+    tr a = Some a' -> Renders 0 a' ta -> 1 + pdepth a' < max_nesting -> xsize a <= F ->
+    tr b = Some b' -> Renders 0 b' tb -> 1 + pdepth b' < max_nesting -> xsize b <= F ->
+    ((stp = None /\ tstep = []) \/
+     (exists c c' tc, stp = Some c /\ tstep = TStep :: tc /\ tr c = Some c' /\ Renders 0 c' tc
+                      /\ 1 + pdepth c' < max_nesting /\ xsize c <= F)) ->
+    SRen F rest (SFor v a b stp) (TFor :: TSymbol v :: TEquals :: ta ++ TTo :: tb ++ tstep)
+| SR_next v : SRen F rest (SNext v) [TNext; TSymbol v].
 
 (* a line: statements joined by colons *)
 Inductive LRen (F : nat) : list rstmt -> list token -> Prop :=
@@ -117,6 +125,7 @@ Definition rerr_of2 (e : ierror) : rerr :=
   | EUndefinedStatement => RUndefinedLine
   | EStackOverflow => RStackOverflow
   | EReturnWithoutGosub => RReturnWithoutGosub
+  | ENextWithoutFor => RNextWithoutFor
   | other => rerr_of other
   end.
 
@@ -128,6 +137,88 @@ Proof.
   intros H Hne. assert (Hl : length (skipn i l) = length ts) by (rewrite H; reflexivity).
   rewrite skipn_length in Hl. destruct ts; [congruence|]. cbn [length] in *. lia.
 Qed.
+
+Lemma Forall2_len {A B} (R : A -> B -> Prop) l l' : Forall2 R l l' -> length l = length l'.
+Proof. induction 1; cbn; congruence. Qed.
+
+(* name-suffix typing of the scalar store (the part of C16's invariant NEXT
+   relies on: a variable that reads as a number has a numeric name) *)
+Definition typed (s : interp) : Prop :=
+  forall name x, alist_get name (variables s) = Some x -> type_matches name x = true.
+
+Lemma typed_set s s' v x : typed s -> type_matches v x = true -> variables s' = alist_set v x (variables s) -> typed s'.
+Proof.
+  intros HT Hm Hv name y. rewrite Hv, alist_get_set. destruct (bytes_eqb name v) eqn:E.
+  - apply bytes_eqb_eq in E. subst name. intros H. inversion H; subst. exact Hm.
+  - apply HT.
+Qed.
+
+Lemma typed_ext s s' : variables s' = variables s -> typed s -> typed s'.
+Proof. unfold typed. intros ->. auto. Qed.
+
+Lemma typed_read s v cur : typed s ->
+  match alist_get v (variables s) with Some x => x | None => default_value v end = VNum cur ->
+  forall y, type_matches v (VNum y) = true.
+Proof.
+  intros HT H y. destruct (alist_get v (variables s)) as [x|] eqn:E.
+  - subst x. exact (HT v (VNum cur) E).
+  - unfold default_value in H. cbn [type_matches]. destruct (ends_with_dollar v); [discriminate | reflexivity].
+Qed.
+
+(* open loops: what FOR keeps (the loops outside an earlier loop on the same
+   variable), on both sides, and NEXT's search, on both sides *)
+Definition rkeep (v : bytes) (l : list rloop) : list rloop :=
+  match drop_loop v l with Some (_, k) => k | None => l end.
+Definition mkeep (v : bytes) (l : list loop_info) : list loop_info :=
+  match find_loop_rev v l with Some i => firstn i l | None => l end.
+
+Lemma drop_find (R : rloop -> loop_info -> Prop) v rls mls :
+  Forall2 R rls mls -> (forall rl lp, R rl lp -> rl_var rl = lp_sym lp) ->
+  match drop_loop v rls, find_loop_rev v mls with
+  | None, None => True
+  | Some (lp, kept), Some k => exists li', nth_error mls k = Some li' /\ R lp li' /\ Forall2 R kept (firstn k mls)
+  | _, _ => False
+  end.
+Proof.
+  intros H Hv. induction H as [|rl lp rls mls HR HF IH]; cbn [drop_loop find_loop_rev]; [exact I|].
+  destruct (drop_loop v rls) as [[found kept]|], (find_loop_rev v mls) as [k|]; try contradiction.
+  - destruct IH as (li' & A & B & C). exists li'. cbn [nth_error firstn]. split; [exact A|]. split; [exact B|].
+    constructor; assumption.
+  - rewrite (Hv rl lp HR). destruct (bytes_eqb (lp_sym lp) v); [|exact I].
+    exists lp. cbn [nth_error firstn]. split; [reflexivity|]. split; [exact HR | constructor].
+Qed.
+
+Lemma keep_rel (R : rloop -> loop_info -> Prop) v rls mls :
+  Forall2 R rls mls -> (forall rl lp, R rl lp -> rl_var rl = lp_sym lp) ->
+  Forall2 R (rkeep v rls) (mkeep v mls).
+Proof.
+  intros H Hv. pose proof (drop_find R v rls mls H Hv) as D. unfold rkeep, mkeep.
+  destruct (drop_loop v rls) as [[found kept]|], (find_loop_rev v mls) as [k|]; try contradiction.
+  - destruct D as (li' & _ & _ & C). exact C.
+  - exact H.
+Qed.
+
+Lemma drop_loop_var v l lp kept : drop_loop v l = Some (lp, kept) -> rl_var lp = v.
+Proof.
+  revert lp kept. induction l as [|x r IH]; intros lp kept H; cbn [drop_loop] in H; [discriminate|].
+  destruct (drop_loop v r) as [[found k]|].
+  - inversion H; subst. eapply IH. reflexivity.
+  - destruct (bytes_eqb (rl_var x) v) eqn:E; [|discriminate]. inversion H; subst. apply bytes_eqb_eq. exact E.
+Qed.
+
+Definition lsame (rl : rloop) (lp : loop_info) : Prop :=
+  rl_var rl = lp_sym lp /\ rl_to rl = lp_to lp /\ rl_step rl = lp_step lp.
+
+(* entering a loop, reference side (the [with_step] of RefSem.exec) *)
+Definition for_enter (v : bytes) (from to step : f64) (after : rpc) (here : N) (st3 : rstate) : outcome :=
+  let kept := rkeep v (r_loops st3) in
+  if Nat.eqb (length kept) depth_cap then Fail RStackOverflow here (set_loops' kept st3)
+  else
+    let st4 := set_loops' (kept ++ [mkrl v to step after]) st3 in
+    match store_scalar v (VNum from) st4 with
+    | inl st5 => Next after st5
+    | inr er => Fail er here st4
+    end.
 
 Section Step.
   Variable F : nat.                       (* the reference interpreter's expression fuel *)
@@ -149,29 +240,46 @@ Section Step.
   Variables (li : nat) (after : rpc) (st : rstate).
   Hypothesis Hrel : same_store st s.
 
-  Definition step_result (stmt : rstmt) (i : nat) (ts : list token) (run : res unit * interp) (o : list output) : Prop :=
-    match exec F p stmt after li st with
+  Definition step_outcome (out : outcome) (i : nat) (ts : list token) (run : res unit * interp) (o : list output) : Prop :=
+    match out with
     | Next pc st' =>
         exists s', run = (Ok tt, s') /\ keeps s' /\ same_store st' s'
           /\ r_frames st' = r_frames st
+          /\ (typed s -> typed s')
           /\ ((r_calls st' = r_calls st /\ stack s' = stack s)
               \/ (r_calls st' = after :: r_calls st
                   /\ stack s' = stack s ++ [mkframe (mkloc (loc_line (loc s)) (i + length ts)) []])
               \/ (exists fr rest cr, stack s = rest ++ [fr] /\ stack s' = rest
                                      /\ r_calls st = pc :: cr /\ r_calls st' = cr /\ loc s' = fr_ret fr))
+          /\ ((r_loops st' = r_loops st /\ loops s' = loops s)
+              \/ (exists v to step,
+                    r_loops st' = rkeep v (r_loops st) ++ [mkrl v to step after]
+                    /\ loops s' = mkeep v (loops s) ++ [mkloop (mkloc (loc_line (loc s)) (i + length ts)) v to step])
+              \/ (exists v lp kept k li',
+                    drop_loop v (r_loops st) = Some (lp, kept) /\ find_loop_rev v (loops s) = Some k
+                    /\ nth_error (loops s) k = Some li'
+                    /\ ((r_loops st' = kept ++ [lp] /\ loops s' = firstn k (loops s) ++ [li']
+                         /\ pc = rl_body lp /\ loc s' = lp_loc li')
+                        \/ (r_loops st' = kept /\ loops s' = firstn k (loops s) /\ pc = after))))
           /\ (exists outs, r_out st' = r_out st ++ outs /\ outputs s' = o ++ map OPrint outs)
           /\ ((pc = after /\ loc s' = mkloc (loc_line (loc s)) (i + length ts))
               \/ (exists n li' stmts, pc = (li', 0) /\ nth_error p li' = Some (n, stmts) /\ loc s' = mkloc (Some n) 0)
               \/ (pc = (S li, 0) /\ loc s' = mkloc (loc_line (loc s)) (length toks))
-              \/ (exists fr rest cr, stack s = rest ++ [fr] /\ r_calls st = pc :: cr /\ loc s' = fr_ret fr))
+              \/ (exists fr rest cr, stack s = rest ++ [fr] /\ r_calls st = pc :: cr /\ loc s' = fr_ret fr)
+              \/ (exists v lp kept k li',
+                    drop_loop v (r_loops st) = Some (lp, kept) /\ find_loop_rev v (loops s) = Some k
+                    /\ nth_error (loops s) k = Some li' /\ pc = rl_body lp /\ loc s' = lp_loc li'))
     | Done st' =>
         st' = st /\ exists s', run = (Ok tt, s') /\ keeps s' /\ loc s' = imm0 /\ immediate s = [] /\ outputs s' = o
     | Fail er line st' =>
-        line = line_no p li /\ st' = st /\
+        line = line_no p li /\ r_out st' = r_out st /\
         exists ie s', run = (Err ie None, s') /\ rerr_of2 ie = er /\ keeps s'
           /\ loc_line (loc s') = loc_line (loc s) /\ outputs s' = o /\ ie <> EDataTypeMismatch
     | NoFuel => False
     end.
+
+  Definition step_result (stmt : rstmt) (i : nat) (ts : list token) (run : res unit * interp) (o : list output) : Prop :=
+    step_outcome (exec F p stmt after li st) i ts run o.
 
   Definition steps_as (stmt : rstmt) (i : nat) (ts : list token) : Prop :=
     exists f0, forall fuel, f0 <= fuel -> forall r o,
@@ -195,13 +303,13 @@ Section Step.
     intros Hsk Hst Htr Hren Hd HF.
     destruct (model_let s toks Htoks Htrace v e' te rest i Hsk Hst Hren Hd) as (f0 & Hm).
     exists f0. intros fuel Hf r o. destruct (Hm fuel Hf r o) as (i' & r' & o' & HW & Hrun). clear Hm.
-    apply W_off in HW. subst o'. unfold step_result.
+    apply W_off in HW. subst o'. unfold step_result, step_outcome.
     rewrite (ref_let s v e e' Htr p after li st Hrel F HF), Hrun.
     pose proof (den_plain s e e' Htr) as Hp.
     destruct (den s e') as [x|er l|pp| |]; cbn [plain] in Hp; try contradiction.
-    - destruct (type_matches v x).
+    - destruct (type_matches v x) eqn:Etm.
       + eexists. split; [reflexivity|]. split; [apply (keeps_at (i + 2 + length te) r' o)|].
-        split; [apply (same_store_assign st s _ v x Hrel); reflexivity|]. split; [try (destruct st; reflexivity); reflexivity|]. split; [left; split; [try (destruct st; reflexivity); reflexivity | reflexivity]|].
+        split; [apply (same_store_assign st s _ v x Hrel); reflexivity|]. split; [try (destruct st; reflexivity); reflexivity|]. split; [intros HT; apply (typed_set s _ v x HT Etm); reflexivity|]. split; [left; split; [try (destruct st; reflexivity); reflexivity | reflexivity]|]. split; [left; split; [try (destruct st; reflexivity); reflexivity | reflexivity]|].
         split; [exists []; split; [destruct st; cbn; rewrite app_nil_r; reflexivity | cbn; rewrite app_nil_r; reflexivity]|].
         left. split; [reflexivity|]. cbn [length]. cbn. f_equal. lia.
       + split; [reflexivity|]. split; [reflexivity|]. eexists _, _. split; [reflexivity|].
@@ -220,12 +328,12 @@ Section Step.
     intros Hsk Htr Hren Hd HF.
     destruct (model_print s toks Htoks mitems ti rest i Htrace Hsk Hren Hd) as (f0 & Hm).
     exists f0. intros fuel Hf r o. destruct (Hm fuel Hf r o) as (i' & r' & o' & HW & Hrun). clear Hm.
-    apply W_off in HW. subst o'. unfold step_result. cbn [exec].
+    apply W_off in HW. subst o'. unfold step_result, step_outcome. cbn [exec].
     rewrite (ref_print_items F st s Hrel items mitems Htr HF false []), Hrun.
     pose proof (pden_plain s items mitems Htr false []) as Hp.
     destruct (pden s mitems false []) as [[semi text]|er l|pp| |]; try contradiction.
     - eexists. split; [reflexivity|]. split; [apply keeps_at|].
-      split; [apply same_store_at; destruct Hrel as [A B]; split; [exact A | exact B]|]. split; [try (destruct st; reflexivity); reflexivity|]. split; [left; split; [try (destruct st; reflexivity); reflexivity | reflexivity]|].
+      split; [apply same_store_at; destruct Hrel as [A B]; split; [exact A | exact B]|]. split; [try (destruct st; reflexivity); reflexivity|]. split; [intros HT; exact HT|]. split; [left; split; [try (destruct st; reflexivity); reflexivity | reflexivity]|]. split; [left; split; [try (destruct st; reflexivity); reflexivity | reflexivity]|].
       split; [eexists [_]; split; [reflexivity | reflexivity]|].
       left. split; [reflexivity|]. cbn [length]. cbn. f_equal. lia.
     - destruct er; try contradiction; destruct l; try contradiction;
@@ -262,11 +370,11 @@ Section Step.
       unfold evaluate_goto_statement.
       erewrite bind_ok by (apply (next_some s toks Htoks); exact H1). cbv iota beta.
       unfold line_target in Hn. rewrite Hn. reflexivity. }
-    unfold step_result. rewrite Hrun, goto_runs. cbn [exec]. unfold jump.
+    unfold step_result, step_outcome. rewrite Hrun, goto_runs. cbn [exec]. unfold jump.
     destruct (find_line p n 0) as [li'|] eqn:Ef.
     - destruct (find_line_nth _ _ _ _ Ef) as (stmts & Hnth). rewrite Nat.sub_0_r in Hnth.
       eexists. split; [reflexivity|]. split; [unfold keeps; repeat split; assumption|].
-      split; [destruct Hrel as [A B]; split; [exact A | exact B]|]. split; [try (destruct st; reflexivity); reflexivity|]. split; [left; split; [try (destruct st; reflexivity); reflexivity | reflexivity]|].
+      split; [destruct Hrel as [A B]; split; [exact A | exact B]|]. split; [try (destruct st; reflexivity); reflexivity|]. split; [intros HT; exact HT|]. split; [left; split; [try (destruct st; reflexivity); reflexivity | reflexivity]|]. split; [left; split; [try (destruct st; reflexivity); reflexivity | reflexivity]|].
       split; [exists []; split; [rewrite app_nil_r; reflexivity | cbn; rewrite app_nil_r; reflexivity]|].
       right. left. exists n, li', stmts. repeat split; assumption.
     - split; [reflexivity|]. split; [reflexivity|]. eexists _, _. split; [reflexivity|].
@@ -291,7 +399,7 @@ Section Step.
       unfold evaluate_gosub_statement.
       erewrite bind_ok by (apply (next_some s toks Htoks); exact H1). cbv iota beta.
       unfold line_target in Hn. rewrite Hn. reflexivity. }
-    unfold step_result. rewrite Hrun. clear Hrun. cbn [exec]. unfold depth. rewrite Hdepth.
+    unfold step_result, step_outcome. rewrite Hrun. clear Hrun. cbn [exec]. unfold depth. rewrite Hdepth.
     unfold gosub_line_number. rewrite bind_get_run.
     change (stack (at_idx s (S (S i)) (S (S r)) o)) with (stack s).
     change depth_cap with stack_limit.
@@ -313,11 +421,13 @@ Section Step.
             rewrite rev_unit. reflexivity.
           - rewrite Hvr. exact (B name). }
         split; [destruct st; reflexivity|].
+        split; [intros HT; exact HT|].
         split.
         { right. left. split; [destruct st; reflexivity|].
           cbn [stack set_stack set_loc set_breakpoint]. change (stack (at_idx s (S (S i)) (S (S r)) o)) with (stack s).
           change (loc (at_idx s (S (S i)) (S (S r)) o)) with (mkloc (loc_line (loc s)) (S (S i))).
           cbn [length]. replace (i + 2) with (S (S i)) by lia. reflexivity. }
+        split; [left; split; [destruct st; reflexivity | reflexivity]|].
         split; [exists []; split; [destruct st; cbn; rewrite app_nil_r; reflexivity | cbn; rewrite app_nil_r; reflexivity]|].
         right. left. exists n, li', stmts. repeat split; assumption.
       + split; [reflexivity|]. split; [reflexivity|]. eexists _, _. split; [reflexivity|].
@@ -339,7 +449,7 @@ Section Step.
       rewrite bind_get_run. change (enable_tracing (at_idx s i r o)) with (enable_tracing s). rewrite Htrace. cbv iota.
       rewrite bind_ret'.
       erewrite bind_ok by (apply (next_some s toks Htoks); exact H0). reflexivity. }
-    unfold step_result. rewrite Hrun. clear Hrun. cbn [exec].
+    unfold step_result, step_outcome. rewrite Hrun. clear Hrun. cbn [exec].
     unfold return_to_last_gosub. rewrite bind_modify_run, bind_get_run.
     change (stack (set_breakpoint None (at_idx s (S i) (S r) o))) with (stack s).
     destruct (r_calls st) as [|pc cr] eqn:Ec.
@@ -358,11 +468,293 @@ Section Step.
           rewrite rev_involutive. reflexivity.
         - rewrite Hvr. exact (B name). }
       split; [destruct st; reflexivity|].
+      split; [intros HT; exact HT|].
       split.
       { right. right. exists fr, rs, cr. rewrite rev_involutive.
         repeat split; try reflexivity. }
-      split; [exists []; split; [destruct st; cbn; rewrite app_nil_r; reflexivity | cbn; rewrite app_nil_r; reflexivity]|].
-      right. right. right. exists fr, rs, cr. repeat split; reflexivity.
+      split; [left; split; [destruct st; reflexivity | reflexivity]|].
+      split.
+      { exists []. split; [destruct st; cbn; rewrite app_nil_r; reflexivity | cbn; rewrite app_nil_r; reflexivity]. }
+      right. right. right. left. exists fr, rs, cr. repeat split; reflexivity.
+  Qed.
+
+  (* FOR: entering the loop once the three numbers are known *)
+  Lemma remove_loop_at v j r o :
+    exists x, remove_loop_with_name v (at_idx s j r o) = (Ok x, set_loops (mkeep v (loops s)) (at_idx s j r o)).
+  Proof.
+    unfold remove_loop_with_name. rewrite bind_get_run.
+    change (loops (at_idx s j r o)) with (loops s). unfold mkeep.
+    destruct (find_loop_rev v (loops s)) as [k|].
+    - rewrite bind_modify_run. eexists. reflexivity.
+    - eexists. reflexivity.
+  Qed.
+
+  Lemma for_enter_sim v from to step j ts i r o :
+    j = i + length ts -> Forall2 lsame (r_loops st) (loops s) ->
+    step_outcome (for_enter v from to step after (line_no p li) st) i ts (start_loop v from to step (at_idx s j r o)) o.
+  Proof.
+    intros Hj HL.
+    pose proof (keep_rel lsame v _ _ HL (fun _ _ H => proj1 H)) as Hk. apply Forall2_len in Hk.
+    unfold for_enter, start_loop.
+    destruct (remove_loop_at v j r o) as (x & Hrm). erewrite bind_ok by exact Hrm. clear Hrm x.
+    rewrite bind_get_run. cbn [loops set_loops]. rewrite Hk. change depth_cap with stack_limit.
+    destruct Hrel as [A B].
+    assert (Hfr : forall X, r_frames (set_loops' X st) = r_frames st) by (intros; destruct st; reflexivity).
+    assert (Hvr : forall X, r_vars (set_loops' X st) = r_vars st) by (intros; destruct st; reflexivity).
+    assert (Hro : forall X, r_out (set_loops' X st) = r_out st) by (intros; destruct st; reflexivity).
+    destruct (Nat.eqb (length (mkeep v (loops s))) stack_limit).
+    - unfold step_outcome. split; [reflexivity|]. split; [apply Hro|]. eexists _, _. split; [reflexivity|].
+      split; [reflexivity|]. split; [unfold keeps; repeat split; assumption|].
+      split; [reflexivity | split; [reflexivity | discriminate]].
+    - rewrite bind_get_run, bind_modify_run. unfold variables_set, store_scalar. rewrite kind_agrees.
+      destruct (type_matches v (VNum from)) eqn:Etm.
+      + unfold step_outcome, modify. eexists. split; [reflexivity|].
+        split; [unfold keeps; repeat split; assumption|].
+        split.
+        { apply (same_store_assign (set_loops' (rkeep v (r_loops st) ++ [mkrl v to step after]) st) s); try reflexivity.
+          split; intros name; [rewrite Hfr; exact (A name) | rewrite Hvr; exact (B name)]. }
+        split; [destruct st; reflexivity|].
+        split; [intros HT; apply (typed_set s _ v (VNum from) HT Etm); reflexivity|].
+        split; [left; split; [destruct st; reflexivity | reflexivity]|].
+        split.
+        { right. left. exists v, to, step. split; [destruct st; reflexivity|].
+          cbn [loops set_loops set_variables]. rewrite Hj. reflexivity. }
+        split; [exists []; split; [destruct st; cbn; rewrite app_nil_r; reflexivity | cbn; rewrite app_nil_r; reflexivity]|].
+        left. split; [reflexivity|]. cbn. rewrite Hj. reflexivity.
+      + unfold step_outcome. split; [reflexivity|]. split; [apply Hro|]. eexists _, _. split; [reflexivity|].
+        split; [reflexivity|]. split; [unfold keeps; repeat split; assumption|].
+        split; [reflexivity | split; [reflexivity | discriminate]].
+  Qed.
+
+  Ltac fail_branch :=
+    split; [reflexivity|]; split; [reflexivity|]; eexists _, _; split; [reflexivity|];
+    split; [reflexivity|]; split; [apply keeps_at|]; split; [reflexivity | split; [reflexivity | discriminate]].
+
+  (* FOR v = a TO b [STEP c] *)
+  Lemma step_for v a a' ta b b' tb stp tstep rest i :
+    skipn i toks = (TFor :: TSymbol v :: TEquals :: ta ++ TTo :: tb ++ tstep) ++ rest ->
+    (rest = [] \/ exists tr, rest = TColon :: tr) ->
+    tr a = Some a' -> Renders 0 a' ta -> 1 + pdepth a' < max_nesting -> xsize a <= F ->
+    tr b = Some b' -> Renders 0 b' tb -> 1 + pdepth b' < max_nesting -> xsize b <= F ->
+    ((stp = None /\ tstep = []) \/
+     (exists c c' tc, stp = Some c /\ tstep = TStep :: tc /\ tr c = Some c' /\ Renders 0 c' tc
+                      /\ 1 + pdepth c' < max_nesting /\ xsize c <= F)) ->
+    Forall2 lsame (r_loops st) (loops s) ->
+    steps_as (SFor v a b stp) i (TFor :: TSymbol v :: TEquals :: ta ++ TTo :: tb ++ tstep).
+  Proof.
+    intros Hsk Hrest Ha Hra Hda HFa Hb Hrb Hdb HFb Hstep HL.
+    cbn [app] in Hsk. rewrite <- app_assoc in Hsk. cbn [app] in Hsk. rewrite <- app_assoc in Hsk.
+    destruct (skipn_cons_nth _ _ _ _ Hsk) as [H0 Hs1]. destruct (skipn_cons_nth _ _ _ _ Hs1) as [H1 Hs2].
+    destruct (skipn_cons_nth _ _ _ _ Hs2) as [H2 Hs3].
+    destruct (expr_sem_at s toks Htoks a' ta Hra 1 (S (S (S i))) (TTo :: tb ++ tstep ++ rest) Hs3 eq_refl Hda) as (fa & Hfa).
+    pose proof (skipn_app_len _ _ _ _ Hs3) as Hs4.
+    set (ja := S (S (S i)) + length ta) in *.
+    destruct (skipn_cons_nth _ _ _ _ Hs4) as [H4 Hs5].
+    assert (Hstop : stops 0 (tstep ++ rest) = true).
+    { destruct Hstep as [[_ ->]|(c & c' & tc & _ & -> & _)]; [|reflexivity].
+      destruct Hrest as [->|(tr0 & ->)]; reflexivity. }
+    destruct (expr_sem_at s toks Htoks b' tb Hrb 1 (S ja) (tstep ++ rest) Hs5 Hstop Hdb) as (fb & Hfb).
+    pose proof (skipn_app_len _ _ _ _ Hs5) as Hs6.
+    set (jb := S ja + length tb) in *.
+    pose proof (den_plain s a a' Ha) as Hpa. pose proof (den_plain s b b' Hb) as Hpb.
+    destruct Hstep as [[-> ->]|(c & c' & tc & -> & -> & Hc & Hrc & Hdc & HFc)].
+    - (* no STEP *)
+      cbn [app] in Hs6.
+      assert (Hno : forall t, nth_error toks jb = Some t -> token_eqb t TStep = false).
+      { intros t Ht. destruct Hrest as [->|(tr0 & ->)].
+        - rewrite (skipn_nil_nth _ _ Hs6) in Ht. discriminate.
+        - destruct (skipn_cons_nth _ _ _ _ Hs6) as [Hc _]. rewrite Hc in Ht. inversion Ht. reflexivity. }
+      exists (S (S (fa + fb))). intros fuel Hf r o. destruct fuel as [|f]; [lia|].
+      destruct (Hfa f ltac:(lia) (S (S (S r))) o) as (i1 & r1 & o1 & Hev1 & Hi1 & HW1). apply W_off in HW1. subst o1.
+      destruct (Hfb f ltac:(lia) (S r1) o) as (i2 & r2 & o2 & Hev2 & Hi2 & HW2). apply W_off in HW2. subst o2.
+      assert (Hrun : evaluate_statement (S f) 0 (at_idx s i r o) =
+                match den s a' with
+                | Ok (VNum from) =>
+                    match den s b' with
+                    | Ok (VNum to) => start_loop v from to f64_one (at_idx s jb (S r2) o)
+                    | Ok (VStr _) => (Err ETypeMismatch None, at_idx s jb r2 o)
+                    | Err er l => (Err er l, at_idx s i2 r2 o)
+                    | Panic pp => (Panic pp, at_idx s i2 r2 o)
+                    | OutOfFuel => (OutOfFuel, at_idx s i2 r2 o)
+                    | OracleMiss => (OracleMiss, at_idx s i2 r2 o)
+                    end
+                | Ok (VStr _) => (Err ETypeMismatch None, at_idx s ja r1 o)
+                | Err er l => (Err er l, at_idx s i1 r1 o)
+                | Panic pp => (Panic pp, at_idx s i1 r1 o)
+                | OutOfFuel => (OutOfFuel, at_idx s i1 r1 o)
+                | OracleMiss => (OracleMiss, at_idx s i1 r1 o)
+                end).
+      { cbn [evaluate_statement]. change (Nat.eqb 0 max_nesting) with false. cbv iota.
+        unfold evaluate_statement_body.
+        rewrite bind_get_run. change (enable_tracing (at_idx s i r o)) with (enable_tracing s). rewrite Htrace. cbv iota.
+        rewrite bind_ret'.
+        erewrite bind_ok by (apply (next_some s toks Htoks); exact H0). cbv iota beta.
+        unfold evaluate_for_statement.
+        erewrite bind_ok by (apply (next_some s toks Htoks); exact H1). cbv iota beta.
+        erewrite bind_ok by (apply (expect_ok s toks Htoks _ _ _ TEquals TEquals H2); reflexivity).
+        unfold Eval.expr. erewrite bind_run by exact Hev1.
+        destruct (den s a') as [[sa|from]|er l|pp| |]; try reflexivity; rewrite (Hi1 _ eq_refl); fold ja; [reflexivity|].
+        cbn [expect_number]. rewrite bind_ret'.
+        erewrite bind_ok by (apply (expect_ok s toks Htoks _ _ _ TTo TTo H4); reflexivity).
+        erewrite bind_run by exact Hev2.
+        destruct (den s b') as [[sb|to]|er l|pp| |]; try reflexivity; rewrite (Hi2 _ eq_refl); fold jb; [reflexivity|].
+        cbn [expect_number]. rewrite bind_ret'.
+        erewrite bind_ok by (apply (accept_no s toks Htoks); exact Hno). cbv iota. rewrite bind_ret'. reflexivity. }
+      unfold step_result. rewrite Hrun. clear Hrun. cbn [exec]. unfold RefSem.ev.
+      rewrite (ref_expr_is_den a a' st s F Ha (same_store_reads _ _ Hrel) HFa).
+      destruct (den s a') as [[sa|from]|er l|pp| |]; cbn [plain conv fail_at] in *; try contradiction.
+      + unfold step_outcome. fail_branch.
+      + rewrite (ref_expr_is_den b b' st s F Hb (same_store_reads _ _ Hrel) HFb).
+        destruct (den s b') as [[sb|to]|er l|pp| |]; cbn [plain conv fail_at] in *; try contradiction.
+        * unfold step_outcome. fail_branch.
+        * apply (for_enter_sim v from to f64_one jb); [|exact HL].
+          cbn [length]. rewrite !app_length. cbn [length]. rewrite app_nil_r. unfold jb, ja. lia.
+        * unfold step_outcome. destruct er; try contradiction; destruct l; try contradiction; fail_branch.
+      + unfold step_outcome. destruct er; try contradiction; destruct l; try contradiction; fail_branch.
+    - (* STEP c *)
+      cbn [app] in Hs6. destruct (skipn_cons_nth _ _ _ _ Hs6) as [H6 Hs7].
+      assert (Hstop2 : stops 0 rest = true) by (destruct Hrest as [->|(tr0 & ->)]; reflexivity).
+      destruct (expr_sem_at s toks Htoks c' tc Hrc 1 (S jb) rest Hs7 Hstop2 Hdc) as (fc & Hfc).
+      set (jc := S jb + length tc) in *.
+      pose proof (den_plain s c c' Hc) as Hpc.
+      exists (S (S (fa + fb + fc))). intros fuel Hf r o. destruct fuel as [|f]; [lia|].
+      destruct (Hfa f ltac:(lia) (S (S (S r))) o) as (i1 & r1 & o1 & Hev1 & Hi1 & HW1). apply W_off in HW1. subst o1.
+      destruct (Hfb f ltac:(lia) (S r1) o) as (i2 & r2 & o2 & Hev2 & Hi2 & HW2). apply W_off in HW2. subst o2.
+      destruct (Hfc f ltac:(lia) (S r2) o) as (i3 & r3 & o3 & Hev3 & Hi3 & HW3). apply W_off in HW3. subst o3.
+      assert (Hrun : evaluate_statement (S f) 0 (at_idx s i r o) =
+                match den s a' with
+                | Ok (VNum from) =>
+                    match den s b' with
+                    | Ok (VNum to) =>
+                        match den s c' with
+                        | Ok (VNum step) => start_loop v from to step (at_idx s jc r3 o)
+                        | Ok (VStr _) => (Err ETypeMismatch None, at_idx s jc r3 o)
+                        | Err er l => (Err er l, at_idx s i3 r3 o)
+                        | Panic pp => (Panic pp, at_idx s i3 r3 o)
+                        | OutOfFuel => (OutOfFuel, at_idx s i3 r3 o)
+                        | OracleMiss => (OracleMiss, at_idx s i3 r3 o)
+                        end
+                    | Ok (VStr _) => (Err ETypeMismatch None, at_idx s jb r2 o)
+                    | Err er l => (Err er l, at_idx s i2 r2 o)
+                    | Panic pp => (Panic pp, at_idx s i2 r2 o)
+                    | OutOfFuel => (OutOfFuel, at_idx s i2 r2 o)
+                    | OracleMiss => (OracleMiss, at_idx s i2 r2 o)
+                    end
+                | Ok (VStr _) => (Err ETypeMismatch None, at_idx s ja r1 o)
+                | Err er l => (Err er l, at_idx s i1 r1 o)
+                | Panic pp => (Panic pp, at_idx s i1 r1 o)
+                | OutOfFuel => (OutOfFuel, at_idx s i1 r1 o)
+                | OracleMiss => (OracleMiss, at_idx s i1 r1 o)
+                end).
+      { cbn [evaluate_statement]. change (Nat.eqb 0 max_nesting) with false. cbv iota.
+        unfold evaluate_statement_body.
+        rewrite bind_get_run. change (enable_tracing (at_idx s i r o)) with (enable_tracing s). rewrite Htrace. cbv iota.
+        rewrite bind_ret'.
+        erewrite bind_ok by (apply (next_some s toks Htoks); exact H0). cbv iota beta.
+        unfold evaluate_for_statement.
+        erewrite bind_ok by (apply (next_some s toks Htoks); exact H1). cbv iota beta.
+        erewrite bind_ok by (apply (expect_ok s toks Htoks _ _ _ TEquals TEquals H2); reflexivity).
+        unfold Eval.expr. erewrite bind_run by exact Hev1.
+        destruct (den s a') as [[sa|from]|er l|pp| |]; try reflexivity; rewrite (Hi1 _ eq_refl); fold ja; [reflexivity|].
+        cbn [expect_number]. rewrite bind_ret'.
+        erewrite bind_ok by (apply (expect_ok s toks Htoks _ _ _ TTo TTo H4); reflexivity).
+        erewrite bind_run by exact Hev2.
+        destruct (den s b') as [[sb|to]|er l|pp| |]; try reflexivity; rewrite (Hi2 _ eq_refl); fold jb; [reflexivity|].
+        cbn [expect_number]. rewrite bind_ret'.
+        erewrite bind_ok by (apply (accept_yes s toks Htoks _ _ _ TStep TStep H6); reflexivity). cbv iota.
+        rewrite bind_assoc. erewrite bind_run by exact Hev3.
+        destruct (den s c') as [[sc|step]|er l|pp| |]; try reflexivity; rewrite (Hi3 _ eq_refl); fold jc; reflexivity. }
+      unfold step_result. rewrite Hrun. clear Hrun. cbn [exec]. unfold RefSem.ev.
+      rewrite (ref_expr_is_den a a' st s F Ha (same_store_reads _ _ Hrel) HFa).
+      destruct (den s a') as [[sa|from]|er l|pp| |]; cbn [plain conv fail_at] in *; try contradiction.
+      + unfold step_outcome. fail_branch.
+      + rewrite (ref_expr_is_den b b' st s F Hb (same_store_reads _ _ Hrel) HFb).
+        destruct (den s b') as [[sb|to]|er l|pp| |]; cbn [plain conv fail_at] in *; try contradiction.
+        * unfold step_outcome. fail_branch.
+        * rewrite (ref_expr_is_den c c' st s F Hc (same_store_reads _ _ Hrel) HFc).
+          destruct (den s c') as [[sc|step]|er l|pp| |]; cbn [plain conv fail_at] in *; try contradiction.
+          -- unfold step_outcome. fail_branch.
+          -- apply (for_enter_sim v from to step jc); [|exact HL].
+             repeat (cbn [length]; rewrite ?app_length). unfold jc, jb, ja. lia.
+          -- unfold step_outcome. destruct er; try contradiction; destruct l; try contradiction; fail_branch.
+        * unfold step_outcome. destruct er; try contradiction; destruct l; try contradiction; fail_branch.
+      + unfold step_outcome. destruct er; try contradiction; destruct l; try contradiction; fail_branch.
+  Qed.
+
+  (* NEXT v *)
+  Lemma step_next v rest i :
+    skipn i toks = [TNext; TSymbol v] ++ rest ->
+    Forall2 lsame (r_loops st) (loops s) -> typed s ->
+    steps_as (SNext v) i [TNext; TSymbol v].
+  Proof.
+    intros Hsk HL HT. cbn [app] in Hsk.
+    destruct (skipn_cons_nth _ _ _ _ Hsk) as [H0 Hs1]. destruct (skipn_cons_nth _ _ _ _ Hs1) as [H1 _].
+    exists 1. intros fuel Hf r o. destruct fuel as [|f]; [lia|].
+    assert (Hrun : evaluate_statement (S f) 0 (at_idx s i r o) = end_loop v (at_idx s (S (S i)) (S (S r)) o)).
+    { cbn [evaluate_statement]. change (Nat.eqb 0 max_nesting) with false. cbv iota.
+      unfold evaluate_statement_body.
+      rewrite bind_get_run. change (enable_tracing (at_idx s i r o)) with (enable_tracing s). rewrite Htrace. cbv iota.
+      rewrite bind_ret'.
+      erewrite bind_ok by (apply (next_some s toks Htoks); exact H0). cbv iota beta.
+      unfold evaluate_next_statement.
+      erewrite bind_ok by (apply (next_some s toks Htoks); exact H1). reflexivity. }
+    unfold step_result. rewrite Hrun. clear Hrun. cbn [exec].
+    destruct Hrel as [A B].
+    unfold end_loop, variables_get. rewrite bind_assoc, bind_get_run, bind_ret'.
+    change (variables (at_idx s (S (S i)) (S (S r)) o)) with (variables s).
+    rewrite (B v), default_agrees.
+    destruct (match alist_get v (variables s) with Some x => x | None => default_value v end) as [sv|cur] eqn:Ecur.
+    { unfold step_outcome. fail_branch. }
+    pose proof (typed_read s v cur HT Ecur) as Hnum.
+    pose proof (drop_find lsame v _ _ HL (fun _ _ H => proj1 H)) as D.
+    unfold remove_loop_with_name. rewrite bind_assoc, bind_get_run.
+    change (loops (at_idx s (S (S i)) (S (S r)) o)) with (loops s).
+    destruct (drop_loop v (r_loops st)) as [[lp kept]|] eqn:Ed, (find_loop_rev v (loops s)) as [k|] eqn:Ef; try contradiction.
+    2:{ rewrite bind_ret'. unfold step_outcome. fail_branch. }
+    destruct D as (lm & Hnth & (Lv & Lt & Ls) & _).
+    rewrite bind_assoc, bind_modify_run, bind_ret', Hnth.
+    assert (Hsym : bytes_eqb (lp_sym lm) v = true).
+    { apply bytes_eqb_eq. rewrite <- Lv. apply (drop_loop_var _ _ _ _ Ed). }
+    rewrite Hsym. cbn [negb]. rewrite <- Ls, <- Lt.
+    assert (Hfr : forall X, r_frames (set_loops' X st) = r_frames st) by (intros; destruct st; reflexivity).
+    assert (Hvr : forall X, r_vars (set_loops' X st) = r_vars st) by (intros; destruct st; reflexivity).
+    assert (Hro : forall X, r_out (set_loops' X st) = r_out st) by (intros; destruct st; reflexivity).
+    assert (Hll : forall X Y, set_loops' X (set_loops' Y st) = set_loops' X st) by (intros; destruct st; reflexivity).
+    unfold store_scalar, variables_set. rewrite kind_agrees.
+    destruct (if f64_leb f64_zero (rl_step lp) then f64_leb (f64_add cur (rl_step lp)) (rl_to lp)
+              else f64_leb (rl_to lp) (f64_add cur (rl_step lp))) eqn:Eagain.
+    - (* once more *)
+      rewrite bind_modify_run. rewrite Hll.
+      rewrite (Hnum (f64_add cur (rl_step lp))).
+      unfold step_outcome, modify. eexists. split; [reflexivity|].
+        split; [unfold keeps; repeat split; assumption|].
+        split.
+        { apply (same_store_assign (set_loops' (kept ++ [lp]) st) s); try reflexivity.
+          split; intros name; [rewrite Hfr; exact (A name) | rewrite Hvr; exact (B name)]. }
+        split; [destruct st; reflexivity|].
+        split; [intros _; apply (typed_set s _ v (VNum (f64_add cur (rl_step lp))) HT (Hnum _)); reflexivity|].
+        split; [left; split; [destruct st; reflexivity | reflexivity]|].
+        split.
+        { right. right. exists v, lp, kept, k, lm. split; [exact Ed|]. split; [exact Ef|]. split; [exact Hnth|].
+          left. split; [destruct st; reflexivity|]. repeat split; reflexivity. }
+        split; [exists []; split; [destruct st; cbn; rewrite app_nil_r; reflexivity | cbn; rewrite app_nil_r; reflexivity]|].
+        right. right. right. right. exists v, lp, kept, k, lm. repeat split; try reflexivity; assumption.
+    - (* the loop is over *)
+      rewrite bind_ret'.
+      rewrite (Hnum (f64_add cur (rl_step lp))).
+      unfold step_outcome, modify. eexists. split; [reflexivity|].
+        split; [unfold keeps; repeat split; assumption|].
+        split.
+        { apply (same_store_assign (set_loops' kept st) s); try reflexivity.
+          split; intros name; [rewrite Hfr; exact (A name) | rewrite Hvr; exact (B name)]. }
+        split; [destruct st; reflexivity|].
+        split; [intros _; apply (typed_set s _ v (VNum (f64_add cur (rl_step lp))) HT (Hnum _)); reflexivity|].
+        split; [left; split; [destruct st; reflexivity | reflexivity]|].
+        split.
+        { right. right. exists v, lp, kept, k, lm. split; [exact Ed|]. split; [exact Ef|]. split; [exact Hnth|].
+          right. split; [destruct st; reflexivity|]. split; reflexivity. }
+        split; [exists []; split; [destruct st; cbn; rewrite app_nil_r; reflexivity | cbn; rewrite app_nil_r; reflexivity]|].
+        left. split; [reflexivity|]. cbn. f_equal. lia.
   Qed.
 
   (* END *)
@@ -372,7 +764,7 @@ Section Step.
   Proof.
     intros Hsk Himm. cbn [app] in Hsk. destruct (skipn_cons_nth _ _ _ _ Hsk) as [H0 _].
     exists 1. intros fuel Hf r o. destruct fuel as [|f]; [lia|].
-    unfold step_result. cbn [exec]. split; [reflexivity|].
+    unfold step_result, step_outcome. cbn [exec]. split; [reflexivity|].
     cbn [evaluate_statement]. change (Nat.eqb 0 max_nesting) with false. cbv iota.
     unfold evaluate_statement_body.
     rewrite bind_get_run. change (enable_tracing (at_idx s i r o)) with (enable_tracing s). rewrite Htrace. cbv iota.
@@ -399,7 +791,7 @@ Section Step.
     set (j := S i + length tc) in *.
     exists (S (S (S (S fe)))). intros fuel Hf r o. destruct fuel as [|f]; [lia|].
     destruct (Hfe f ltac:(lia) (S r) o) as (i1 & r1 & o1 & Hev & Hi1 & HW1). apply W_off in HW1. subst o1.
-    unfold step_result. cbn [exec]. unfold RefSem.ev.
+    unfold step_result, step_outcome. cbn [exec]. unfold RefSem.ev.
     rewrite (ref_expr_is_den c c' st s F Htr (same_store_reads _ _ Hrel) HF).
     pose proof (den_plain s c c' Htr) as Hp.
     (* the model up to the branch *)
@@ -459,7 +851,7 @@ Section Step.
         erewrite bind_ok by exact Hpk. cbv iota. cbn [ret].
         eexists. split; [reflexivity|].
         split; [unfold keeps; repeat split; assumption|].
-        split; [destruct Hrel as [A B]; split; [exact A | exact B]|]. split; [try (destruct st; reflexivity); reflexivity|]. split; [left; split; [try (destruct st; reflexivity); reflexivity | reflexivity]|].
+        split; [destruct Hrel as [A B]; split; [exact A | exact B]|]. split; [try (destruct st; reflexivity); reflexivity|]. split; [intros HT; exact HT|]. split; [left; split; [try (destruct st; reflexivity); reflexivity | reflexivity]|]. split; [left; split; [try (destruct st; reflexivity); reflexivity | reflexivity]|].
         split; [exists []; split; [rewrite app_nil_r; reflexivity | cbn; rewrite app_nil_r; reflexivity]|].
         right. left. exists n, li', stmts. repeat split; assumption.
       + split; [reflexivity|]. split; [reflexivity|]. eexists _, _. split; [reflexivity|].
@@ -482,7 +874,7 @@ Section Step.
         { unfold next_token. erewrite bind_ok by apply (peek_at s toks Htoks). rewrite Hnone. reflexivity. }
         erewrite bind_ok by (erewrite bind_ok by exact Hnt; reflexivity). cbv iota. cbn [ret].
         eexists. split; [reflexivity|]. split; [apply keeps_at|].
-        split; [apply same_store_at; destruct Hrel as [A B]; split; [exact A | exact B]|]. split; [try (destruct st; reflexivity); reflexivity|]. split; [left; split; [try (destruct st; reflexivity); reflexivity | reflexivity]|].
+        split; [apply same_store_at; destruct Hrel as [A B]; split; [exact A | exact B]|]. split; [try (destruct st; reflexivity); reflexivity|]. split; [intros HT; exact HT|]. split; [left; split; [try (destruct st; reflexivity); reflexivity | reflexivity]|]. split; [left; split; [try (destruct st; reflexivity); reflexivity | reflexivity]|].
         split; [exists []; split; [rewrite app_nil_r; reflexivity | cbn; rewrite app_nil_r; reflexivity]|].
         right. right. left. split; [reflexivity|]. destruct Hlen as [Hl|[_ Hl]]; cbn; f_equal; cbn [length] in *; lia.
       + (* a colon: the statements behind it are skipped too *)
@@ -500,7 +892,7 @@ Section Step.
         { unfold next_token. erewrite bind_ok by apply (peek_at s toks Htoks). rewrite Hnone. reflexivity. }
         erewrite bind_ok by (erewrite bind_ok by exact Hnt; reflexivity). cbv iota. cbn [ret].
         eexists. split; [reflexivity|]. split; [apply keeps_at|].
-        split; [apply same_store_at; destruct Hrel as [A B]; split; [exact A | exact B]|]. split; [try (destruct st; reflexivity); reflexivity|]. split; [left; split; [try (destruct st; reflexivity); reflexivity | reflexivity]|].
+        split; [apply same_store_at; destruct Hrel as [A B]; split; [exact A | exact B]|]. split; [try (destruct st; reflexivity); reflexivity|]. split; [intros HT; exact HT|]. split; [left; split; [try (destruct st; reflexivity); reflexivity | reflexivity]|]. split; [left; split; [try (destruct st; reflexivity); reflexivity | reflexivity]|].
         split; [exists []; split; [rewrite app_nil_r; reflexivity | cbn; rewrite app_nil_r; reflexivity]|].
         right. right. left. split; reflexivity.
   Qed.
@@ -609,9 +1001,6 @@ Proof.
   apply (reach_turn P s Q Hq). intros s' Hs'. apply IH; assumption.
 Qed.
 
-Lemma Forall2_len {A B} (R : A -> B -> Prop) l l' : Forall2 R l l' -> length l = length l'.
-Proof. induction 1; cbn; congruence. Qed.
-
 Section Program.
   Variable F : nat.
   Variable p : rprogram.
@@ -715,10 +1104,29 @@ Section Program.
     exists fr, (rev rs0). rewrite rev_involutive. repeat split; assumption.
   Qed.
 
+  (* the open loops, one by one: same variable, limit and step, and the body
+     starts where the model's NEXT jumps to *)
+  Definition lrel (T : list (N * list token)) (rl : rloop) (lp : loop_info) : Prop :=
+    rl_var rl = lp_sym lp /\ rl_to rl = lp_to lp /\ rl_step rl = lp_step lp /\ pcloc T (rl_body rl) (lp_loc lp).
+  Definition loops_rel (st : rstate) (s : interp) : Prop := Forall2 (lrel (st_toks s)) (r_loops st) (loops s).
+
+  Lemma lrel_var T rl lp : lrel T rl lp -> rl_var rl = lp_sym lp.
+  Proof. intros [A _]. exact A. Qed.
+
+  Lemma loops_ext st st' s s' :
+    r_loops st' = r_loops st -> loops s' = loops s -> st_toks s' = st_toks s -> loops_rel st s -> loops_rel st' s'.
+  Proof. unfold loops_rel. intros -> -> ->. auto. Qed.
+
+  Lemma loops_lsame st s : loops_rel st s -> Forall2 lsame (r_loops st) (loops s).
+  Proof.
+    unfold loops_rel. induction 1 as [|rl lp l l' (A & B & C & _) H IH]; constructor; [|exact IH].
+    repeat split; assumption.
+  Qed.
+
   Inductive Sim : rpc -> rstate -> interp -> Prop :=
   | Sim_at li si st s colon :
       Inv s -> state s = Running -> same_store st s -> outputs s = o0 ++ map OPrint (r_out st) ->
-      calls_rel st s -> at_stmt li si s colon -> Sim (li, si) st s
+      calls_rel st s -> loops_rel st s -> typed s -> at_stmt li si s colon -> Sim (li, si) st s
   | Sim_eol li st s n stmts : nth_error p li = Some (n, stmts) -> Sim (S li, 0) st s -> Sim (li, length stmts) st s
   | Sim_fin li si st s : length p <= li -> Fin st s -> Sim (li, si) st s.
 
@@ -739,11 +1147,12 @@ Section Program.
   (* the end of a line, inside the call: on to the next line, or the program is over *)
   Lemma eol_after st s li n stmts toks :
     Inv s -> state s = Running -> same_store st s -> outputs s = o0 ++ map OPrint (r_out st) -> calls_rel st s ->
+    loops_rel st s -> typed s ->
     nth_error p li = Some (n, stmts) -> toks_get n (st_toks s) = Some toks -> loc_line (loc s) = Some n ->
     nth_error toks (loc_idx (loc s)) = None ->
     exists s2, after_statement s = (Ok tt, s2) /\ Sim (S li, 0) st s2.
   Proof.
-    intros HI Hrun Hrel Hout Hcr Hp Ht Hl Hnone.
+    intros HI Hrun Hrel Hout Hcr Hlr Hty Hp Ht Hl Hnone.
     pose proof (line_exists_line s n toks Hl Ht) as Hle.
     assert (Hcn : nth_error (cur_toks s) (loc_idx (loc s)) = None) by (rewrite (cur_toks_line s n toks Hl Ht); exact Hnone).
     assert (Hk : keys_after n (st_keys s) = nth_error (map fst p) (S li)).
@@ -759,6 +1168,8 @@ Section Program.
       + destruct Hrel as [A B]. split; [exact A | exact B].
       + exact Hout.
       + apply (calls_ext st st s); try reflexivity; exact Hcr.
+      + apply (loops_ext st st s); try reflexivity; exact Hlr.
+      + apply (typed_ext s); [reflexivity | exact Hty].
       + exists n', stmts', toks', toks'. repeat split; try assumption; reflexivity.
     - rewrite nth_error_map, Ep' in Hk. cbn in Hk.
       eexists. split; [apply (after_last s n Hle Hcn Hl Hk)|].
@@ -766,15 +1177,42 @@ Section Program.
       split; [reflexivity|]. rewrite outputs_finished. exact Hout.
   Qed.
 
+  (* the cursor has been put where a RETURN or a NEXT lands: the rest of the call *)
+  Lemma land st s pc :
+    Inv s -> state s = Running -> same_store st s -> outputs s = o0 ++ map OPrint (r_out st) -> calls_rel st s ->
+    loops_rel st s -> typed s -> pcloc (st_toks s) pc (loc s) ->
+    exists s2, after_statement s = (Ok tt, s2) /\ Sim pc st s2.
+  Proof.
+    intros HI Hrun Hrel Hout Hcr Hlr Hty C. destruct pc as [li2 si2].
+    destruct C as (n2 & stmts2 & toks2 & P1 & P2 & P3 & PC). cbn [fst snd] in P1, PC.
+    destruct PC as [(tl2 & Q1 & Q2)|(Q1 & Q2)].
+    - destruct (skipn_cons_nth _ _ _ _ Q1) as [Hc _].
+      assert (Hle : line_exists s (loc s)) by (apply (line_exists_line s n2 toks2 P3 P2)).
+      exists (bump s). split.
+      { rewrite (after_stay s TColon Hle); [reflexivity|]. rewrite (cur_toks_line s n2 toks2 P3 P2). exact Hc. }
+      apply (Sim_at li2 si2 st (bump s) true);
+        [apply (Inv_ext s); try reflexivity; exact HI | exact Hrun
+        | destruct Hrel as [A B]; split; [exact A | exact B] | exact Hout
+        | apply (calls_ext st st s); try reflexivity; exact Hcr
+        | apply (loops_ext st st s); try reflexivity; exact Hlr
+        | apply (typed_ext s); [reflexivity | exact Hty] |].
+      exists n2, stmts2, toks2, tl2.
+      split; [exact P1|]. split; [exact P2|]. split; [exact P3|]. split; [exact Q1 | exact Q2].
+    - destruct (eol_after st s li2 n2 stmts2 toks2 HI Hrun Hrel Hout Hcr Hlr Hty P1 P2 P3) as (s2 & Ha & HS2).
+      { apply skipn_nil_nth. exact Q1. }
+      exists s2. split; [exact Ha|]. rewrite Q2. apply (Sim_eol li2 st s2 n2 stmts2 P1 HS2).
+  Qed.
+
   (* every statement of the fragment steps as its step lemma says *)
   Lemma sren_steps s toks li after st stmt ts rest i :
-    Inv s -> fst (cur_tokens s) = Ok toks -> same_store st s -> calls_rel st s ->
+    Inv s -> fst (cur_tokens s) = Ok toks -> same_store st s -> calls_rel st s -> loops_rel st s -> typed s ->
     skipn i toks = ts ++ rest -> (rest = [] \/ exists tr, rest = TColon :: tr) ->
     SRen F rest stmt ts -> steps_as F p s toks li after st stmt i ts.
   Proof.
-    intros HI Htoks Hrel Hcr Hsk Hrest HS.
+    intros HI Htoks Hrel Hcr Hlr Hty Hsk Hrest HS.
     pose proof (i_trace s HI) as Htr. pose proof (i_warn s HI) as Hw.
-    destruct HS as [v e e' te H1 H2 H3 H4 H5|items mitems ti H1 H2 H3 H4|n x H1|n x H1| | |c c' tc n x H1 H2 H3 H4 H5].
+    destruct HS as [v e e' te H1 H2 H3 H4 H5|items mitems ti H1 H2 H3 H4|n x H1|n x H1| | |c c' tc n x H1 H2 H3 H4 H5
+                      |v a a' ta b b' tb stp tstep A1 A2 A3 A4 B1 B2 B3 B4 HC|v].
     - eapply (step_let F p s toks Htoks Htr Hw li after st Hrel v e e' te rest i); eassumption.
     - eapply (step_print F p s toks Htoks Htr Hw li after st Hrel items mitems ti rest i); eassumption.
     - eapply (step_goto F p s toks Htoks Htr Hw (Inv_jump s HI) li after st Hrel n x rest i); eassumption.
@@ -785,6 +1223,9 @@ Section Program.
     - eapply (step_end F p s toks Htoks Htr Hw li after st rest i); [exact Hsk | apply (i_imm s HI)].
     - eapply (step_if F p s toks Htoks Htr Hw (Inv_jump s HI) (Inv_heads s HI) li after st Hrel c c' tc n x rest i);
         eassumption.
+    - eapply (step_for F p s toks Htoks Htr Hw li after st Hrel v a a' ta b b' tb stp tstep rest i); try eassumption.
+      apply loops_lsame. exact Hlr.
+    - eapply (step_next F p s toks Htoks Htr Hw li after st Hrel v rest i); [exact Hsk | apply loops_lsame; exact Hlr | exact Hty].
   Qed.
 
   Definition FailsWith (er : rerr) (line : N) (st' : rstate) (s1 : interp) : Prop :=
@@ -806,9 +1247,9 @@ Section Program.
   (* the model's cursor on the first token of statement [si] of line [li] *)
   Lemma at_step li si st s :
     Inv s -> state s = Running -> same_store st s -> outputs s = o0 ++ map OPrint (r_out st) -> calls_rel st s ->
-    at_stmt li si s false -> after_step (rstep F p (li, si) st) s.
+    loops_rel st s -> typed s -> at_stmt li si s false -> after_step (rstep F p (li, si) st) s.
   Proof.
-    intros HI Hrun Hrel Hout Hcr (n & stmts & toks & tl & Hp & Ht & Hl & Hsk & HL).
+    intros HI Hrun Hrel Hout Hcr Hlr Hty (n & stmts & toks & tl & Hp & Ht & Hl & Hsk & HL).
     (* the statement and what follows it on the line *)
     assert (Hsplit : exists stmt rs ts rest,
               skipn si stmts = stmt :: rs /\ tl = ts ++ rest /\ SRen F rest stmt ts
@@ -826,12 +1267,12 @@ Section Program.
     destruct Hsplit as (stmt & rs & ts & rest & Hst & -> & HS & Hrest).
     destruct (skipn_cons_nth _ _ _ _ Hst) as [Hnth Hrs].
     assert (Hrest' : rest = [] \/ exists tr', rest = TColon :: tr') by (destruct Hrest as [[-> _]|(tr' & -> & _)]; eauto).
-    destruct (sren_steps s toks li (li, S si) st stmt ts rest i HI Htoks Hrel Hcr Hsk Hrest' HS) as (f0 & Hstep).
+    destruct (sren_steps s toks li (li, S si) st stmt ts rest i HI Htoks Hrel Hcr Hlr Hty Hsk Hrest' HS) as (f0 & Hstep).
     destruct (SRen_nonempty _ _ _ _ HS) as (t & ts' & Ets & _).
     assert (Hnt : nth_error (cur_toks s) (loc_idx (loc s)) = Some t).
     { rewrite Hct. fold i. rewrite Ets in Hsk. cbn [app] in Hsk. apply (skipn_cons_nth _ _ _ _ Hsk). }
     unfold rstep. cbn [fst snd]. rewrite Hp, Hnth.
-    unfold steps_as, step_result in Hstep.
+    unfold steps_as, step_result, step_outcome in Hstep.
     assert (Hturn : forall fuel, continue_evaluating fuel s =
               postprocess ((evaluate_statement fuel 0 ;;; after_statement) (at_idx s i (S (reads s)) (outputs s)))).
     { intros fuel. rewrite (turn_eq fuel s t Hrun Hle Hnt), bump_is_at. reflexivity. }
@@ -839,7 +1280,7 @@ Section Program.
     - (* the statement completes: the rest of the call *)
       apply (reach_turn _ s (Sim pc' st')); [|intros s' Hs'; apply reach_now, Hs'].
       exists f0. intros fuel Hf. specialize (Hstep fuel Hf (S (reads s)) (outputs s)).
-      destruct Hstep as (s' & Hev & Hk & Hrel' & Hfr' & CS & (outs & Ho1 & Ho2) & Hloc).
+      destruct Hstep as (s' & Hev & Hk & Hrel' & Hfr' & Hty' & CS & LS & (outs & Ho1 & Ho2) & Hloc). specialize (Hty' Hty).
       rewrite Hturn. rewrite Safety.bind_run, Hev.
       pose proof (Inv_keeps s s' HI Hk) as HI'.
       destruct Hk as (K1 & K2 & K3 & K4 & K5 & K6).
@@ -863,7 +1304,18 @@ Section Program.
         - rewrite E1, E2, K1. exact B.
         - rewrite E1, E2, rev_unit. constructor; [split; [reflexivity | exact Hafter]|]. rewrite K1. exact B.
         - rewrite E4, E2, K1. rewrite E3, E1, rev_unit in B. inversion B; assumption. }
-      destruct Hloc as [[-> Hloc]|[(n' & li' & stmts' & -> & Hp' & Hloc)|[[-> Hloc]|(fr & rs0 & cr & E1 & E2 & Hloc)]]].
+      assert (Hlr' : loops_rel st' s').
+      { unfold loops_rel in *. rewrite K1.
+        destruct LS as [[E1 E2]|[(v & to & step & E1 & E2)|(v & lp & kept & k & lm & E1 & E2 & E3 & E4)]].
+        - rewrite E1, E2. exact Hlr.
+        - rewrite E1, E2. apply Forall2_app; [apply keep_rel; [exact Hlr | apply lrel_var]|].
+          constructor; [|constructor]. repeat split; try reflexivity. cbn [rl_body lp_loc]. rewrite <- K1. exact Hafter.
+        - pose proof (drop_find _ v _ _ Hlr (lrel_var _)) as D. rewrite E1, E2 in D.
+          destruct D as (lm' & D1 & D2 & D3). rewrite E3 in D1. inversion D1; subst lm'.
+          destruct E4 as [(A & B & _ & _)|(A & B & _)]; rewrite A, B; [|exact D3].
+          apply Forall2_app; [exact D3 | constructor; [exact D2 | constructor]]. }
+      destruct Hloc as [[-> Hloc]|[(n' & li' & stmts' & -> & Hp' & Hloc)|[[-> Hloc]|[(fr & rs0 & cr & E1 & E2 & Hloc)
+                        |(v & lp & kept & k & lm & E1 & E2 & E3 & -> & Hloc)]]]].
       + (* just past the statement *)
         assert (Hl' : loc_line (loc s') = Some n) by (rewrite Hloc; exact Hl).
         assert (Hidx : loc_idx (loc s') = i + length ts) by (rewrite Hloc; reflexivity).
@@ -872,7 +1324,7 @@ Section Program.
           assert (Hlen : S si = length stmts).
           { assert (Hz : length (skipn si stmts) = 1) by (rewrite Hst; reflexivity).
             rewrite skipn_length in Hz. lia. }
-          destruct (eol_after st' s' li n stmts toks HI' Hrun' Hrel' Hout' Hcr' Hp Ht' Hl') as (s2 & Ha & HS2).
+          destruct (eol_after st' s' li n stmts toks HI' Hrun' Hrel' Hout' Hcr' Hlr' Hty' Hp Ht' Hl') as (s2 & Ha & HS2).
           { rewrite Hidx. apply skipn_nil_nth. exact Hsk'. }
           exists s2. split; [rewrite Ha; reflexivity|]. rewrite Hlen. apply (Sim_eol li st' s2 n stmts Hp HS2).
         * (* a colon follows: the call ends on it *)
@@ -884,7 +1336,9 @@ Section Program.
           apply (Sim_at li (S si) st' (bump s') true);
             [apply (Inv_ext s'); try reflexivity; exact HI' | exact Hrun'
             | destruct Hrel' as [A B]; split; [exact A | exact B] | exact Hout'
-            | apply (calls_ext st' st' s'); try reflexivity; exact Hcr' |].
+            | apply (calls_ext st' st' s'); try reflexivity; exact Hcr'
+            | apply (loops_ext st' st' s'); try reflexivity; exact Hlr'
+            | apply (typed_ext s'); [reflexivity | exact Hty'] |].
           exists n, stmts, toks, tr'.
           split; [exact Hp|]. split; [exact Ht'|]. split; [exact Hl'|].
           split; [change (loc (bump s')) with (loc s'); rewrite Hidx; exact Hsk' | rewrite Hrs; exact HL'].
@@ -899,38 +1353,29 @@ Section Program.
         apply (Sim_at li' 0 st' (bump s') false);
           [apply (Inv_ext s'); try reflexivity; exact HI' | exact Hrun'
           | destruct Hrel' as [A B]; split; [exact A | exact B] | exact Hout'
-          | apply (calls_ext st' st' s'); try reflexivity; exact Hcr' |].
+          | apply (calls_ext st' st' s'); try reflexivity; exact Hcr'
+          | apply (loops_ext st' st' s'); try reflexivity; exact Hlr'
+          | apply (typed_ext s'); [reflexivity | exact Hty'] |].
         exists n', stmts', (t2 :: toks2), (t2 :: toks2).
         split; [exact Hp'|]. split; [exact Ht2|]. split; [exact Hl'|].
         split; [change (loc (bump s')) with (loc s'); rewrite Hloc; reflexivity | exact HL2].
       + (* IF not taken: the rest of the line is skipped *)
         assert (Hl' : loc_line (loc s') = Some n) by (rewrite Hloc; exact Hl).
-        destruct (eol_after st' s' li n stmts toks HI' Hrun' Hrel' Hout' Hcr' Hp Ht' Hl') as (s2 & Ha & HS2).
+        destruct (eol_after st' s' li n stmts toks HI' Hrun' Hrel' Hout' Hcr' Hlr' Hty' Hp Ht' Hl') as (s2 & Ha & HS2).
         { rewrite Hloc. cbn [loc_idx]. apply nth_error_None. apply le_n. }
         exists s2. split; [rewrite Ha; reflexivity | exact HS2].
       + (* RETURN: just past the GOSUB that called *)
         destruct (calls_cons st s pc' cr Hcr E2) as (fr2 & rs2 & A & _ & C & _).
         rewrite E1 in A. apply app_inj_tail in A. destruct A as [_ <-].
-        destruct pc' as [li2 si2].
-        destruct C as (n2 & stmts2 & toks2 & P1 & P2 & P3 & PC). cbn [fst snd] in P1, PC.
-        assert (Hl' : loc_line (loc s') = Some n2) by (rewrite Hloc; exact P3).
-        assert (Ht2 : toks_get n2 (st_toks s') = Some toks2) by (rewrite K1; exact P2).
-        destruct PC as [(tl2 & Q1 & Q2)|(Q1 & Q2)].
-        * destruct (skipn_cons_nth _ _ _ _ Q1) as [Hc _].
-          assert (Hle' : line_exists s' (loc s')) by (apply (line_exists_line s' n2 toks2 Hl' Ht2)).
-          exists (bump s'). split.
-          { rewrite (after_stay s' TColon Hle'); [reflexivity|].
-            rewrite (cur_toks_line s' n2 toks2 Hl' Ht2), Hloc. exact Hc. }
-          apply (Sim_at li2 si2 st' (bump s') true);
-            [apply (Inv_ext s'); try reflexivity; exact HI' | exact Hrun'
-            | destruct Hrel' as [A B]; split; [exact A | exact B] | exact Hout'
-            | apply (calls_ext st' st' s'); try reflexivity; exact Hcr' |].
-          exists n2, stmts2, toks2, tl2.
-          split; [exact P1|]. split; [exact Ht2|]. split; [exact Hl'|].
-          split; [change (loc (bump s')) with (loc s'); rewrite Hloc; exact Q1 | exact Q2].
-        * destruct (eol_after st' s' li2 n2 stmts2 toks2 HI' Hrun' Hrel' Hout' Hcr' P1 Ht2 Hl') as (s2 & Ha & HS2).
-          { rewrite Hloc. apply skipn_nil_nth. exact Q1. }
-          exists s2. split; [rewrite Ha; reflexivity|]. rewrite Q2. apply (Sim_eol li2 st' s2 n2 stmts2 P1 HS2).
+        rewrite <- K1, <- Hloc in C.
+        destruct (land st' s' pc' HI' Hrun' Hrel' Hout' Hcr' Hlr' Hty' C) as (s2 & Ha & HS2).
+        exists s2. split; [rewrite Ha; reflexivity | exact HS2].
+      + (* NEXT, once more: just past the FOR *)
+        pose proof (drop_find _ v _ _ Hlr (lrel_var _)) as D. rewrite E1, E2 in D.
+        destruct D as (lm' & D1 & (_ & _ & _ & C) & _). rewrite E3 in D1. inversion D1; subst lm'.
+        rewrite <- K1, <- Hloc in C.
+        destruct (land st' s' (rl_body lp) HI' Hrun' Hrel' Hout' Hcr' Hlr' Hty' C) as (s2 & Ha & HS2).
+        exists s2. split; [rewrite Ha; reflexivity | exact HS2].
     - (* END *)
       apply (reach_turn _ s (Fin st')); [|intros s' Hs'; apply reach_now, Hs'].
       exists f0. intros fuel Hf. specialize (Hstep fuel Hf (S (reads s)) (outputs s)).
@@ -942,25 +1387,25 @@ Section Program.
       rewrite outputs_finished, Ho. exact Hout.
     - (* the statement fails: so does the call, on this line *)
       apply reach_now. exists f0. intros fuel Hf. specialize (Hstep fuel Hf (S (reads s)) (outputs s)).
-      destruct Hstep as (-> & -> & ie & s' & Hev & Her & Hk & Hll & Ho & Hne).
+      destruct Hstep as (-> & Hro & ie & s' & Hev & Her & Hk & Hll & Ho & Hne).
       rewrite Hturn. rewrite Safety.bind_run, Hev. cbn [postprocess].
       exists ie, (prev_location (loc s')), (set_state Idle s').
       split; [f_equal; f_equal; unfold populate_error_location; destruct ie; try reflexivity; congruence|].
       split; [exact Her|]. split.
       { cbn. rewrite Hll, Hl. unfold line_no. rewrite Hp. reflexivity. }
-      split; [reflexivity|]. cbn. rewrite Ho. exact Hout.
+      split; [reflexivity|]. cbn. rewrite Ho, Hro. exact Hout.
     - specialize (Hstep f0 (le_n _) (S (reads s)) (outputs s)). exact Hstep.
   Qed.
 
   (* the colon in front of a statement is a host call of its own *)
   Lemma colon_step li si st s :
     Inv s -> state s = Running -> same_store st s -> outputs s = o0 ++ map OPrint (r_out st) -> calls_rel st s ->
-    at_stmt li si s true ->
+    loops_rel st s -> typed s -> at_stmt li si s true ->
     exists f0, forall fuel, f0 <= fuel -> exists s', continue_evaluating fuel s = (Ok tt, s') /\
       Inv s' /\ state s' = Running /\ same_store st s' /\ outputs s' = o0 ++ map OPrint (r_out st) /\ calls_rel st s'
-      /\ at_stmt li si s' false.
+      /\ loops_rel st s' /\ typed s' /\ at_stmt li si s' false.
   Proof.
-    intros HI Hrun Hrel Hout Hcr (n & stmts & toks & tl & Hp & Ht & Hl & Hsk & HL).
+    intros HI Hrun Hrel Hout Hcr Hlr Hty (n & stmts & toks & tl & Hp & Ht & Hl & Hsk & HL).
     set (i := loc_idx (loc s)) in *.
     pose proof (cur_tokens_line s n toks Hl Ht) as Htoks.
     pose proof (line_exists_line s n toks Hl Ht) as Hle.
@@ -988,20 +1433,22 @@ Section Program.
     split; [apply (Inv_ext s); try reflexivity; exact HI|]. split; [exact Hrun|].
     split; [destruct Hrel as [A B]; split; [exact A | exact B]|]. split; [exact Hout|].
     split; [apply (calls_ext st st s); try reflexivity; exact Hcr|].
+    split; [apply (loops_ext st st s); try reflexivity; exact Hlr|].
+    split; [apply (typed_ext s); [reflexivity | exact Hty]|].
     exists n, stmts, toks, tl. split; [exact Hp|]. split; [exact Ht|]. split; [exact Hl|]. split; [exact Hsk' | exact HL].
   Qed.
 
   (* one reference step *)
   Theorem sim_step pc st s : Sim pc st s -> after_step (rstep F p pc st) s.
   Proof.
-    induction 1 as [li si st s colon HI Hrun Hrel Hout Hcr Hat|li st s n stmts Hp HS IH|li si st s Hlen HF].
+    induction 1 as [li si st s colon HI Hrun Hrel Hout Hcr Hlr Hty Hat|li st s n stmts Hp HS IH|li si st s Hlen HF].
     - destruct colon; [|apply at_step; assumption].
-      destruct (colon_step li si st s HI Hrun Hrel Hout Hcr Hat) as (f0 & Hc).
+      destruct (colon_step li si st s HI Hrun Hrel Hout Hcr Hlr Hty Hat) as (f0 & Hc).
       assert (Hgoal : forall s', (Inv s' /\ state s' = Running /\ same_store st s'
                                  /\ outputs s' = o0 ++ map OPrint (r_out st) /\ calls_rel st s'
-                                 /\ at_stmt li si s' false) ->
+                                 /\ loops_rel st s' /\ typed s' /\ at_stmt li si s' false) ->
                         after_step (rstep F p (li, si) st) s').
-      { intros s' (A & B & C & D & E & G). apply at_step; assumption. }
+      { intros s' (A & B & C & D & E & G & H & J). apply at_step; assumption. }
       destruct (rstep F p (li, si) st) as [pc' st'|st'|er line st'|]; unfold after_step in *.
       + eapply reach_turn; [exists f0; exact Hc | exact Hgoal].
       + eapply reach_turn; [exists f0; exact Hc | exact Hgoal].
